@@ -135,7 +135,13 @@ static const char *vs_addrname(const void *a, char *buf, size_t n)
 static inline uint64_t vs_peek(const uint8_t *a, int n) { uint64_t v = 0; memcpy(&v, a, (size_t)(n > 8 ? 8 : n)); return v; }
 static void vs_observe(vs_ctx *c, const void *addr, size_t n, uint64_t val)
 {
-	if (c->nobs >= 64) { c->obs_overflow = 1; return; }
+	if (c->nobs >= 64) {
+		/* forget the oldest half of the log (and the call-site visits that refer to it) */
+		int drop = 32, k = 0;
+		memmove(&c->obs[0], &c->obs[drop], sizeof(c->obs[0]) * (size_t)(c->nobs - drop)); c->nobs -= drop;
+		for (int i = 0; i < c->nspin; i++) if (c->spin[i].obs_start >= drop) { c->spin[k] = c->spin[i]; c->spin[k].obs_start -= drop; k++; }
+		c->nspin = k;
+	}
 	c->obs[c->nobs].addr = addr; c->obs[c->nobs].n = (uint8_t)(n > 8 ? 8 : n); c->obs[c->nobs].val = val; c->nobs++;
 }
 static void vs_progress(vs_ctx *c) { c->nspin = 0; c->nobs = 0; c->obs_overflow = 0; c->blind_write = 0; }
@@ -333,34 +339,46 @@ static void vs_sched_point(void *site)
 	vs_ctx *c = vs_curctx();
 	/* spin detection */
 	if (site) {
-		for (int i = 0; i < c->nspin; i++) if (c->spin[i].site == site) {
-			/* back at a call site: did the iteration only see values that memory still holds? */
-			int same = !c->obs_overflow, nw = 0;
-			for (int k = c->spin[i].obs_start; same && k < c->nobs; k++) {
+		/* A spin: this call site has now been reached four times in a row with three identical iterations
+		 * in between (same observations, no blind write) and memory still holds every value they saw. (One
+		 * or two repetitions also occur when a function is simply called again, e.g. the atomic run queue
+		 * is drained twice in one scheduling pass; scenario code calls vs_note() between API calls.) */
+		int idx[3], nidx = 0;
+		for (int i = c->nspin - 1; i >= 0 && nidx < 3; i--) if (c->spin[i].site == site) idx[nidx++] = i;
+		if (nidx == 3 && !c->obs_overflow) {
+			int i3 = idx[0], i2 = idx[1], i1 = idx[2];
+			int s1 = c->spin[i1].obs_start, s2 = c->spin[i2].obs_start, s3 = c->spin[i3].obs_start, s4 = c->nobs;
+			int same = (s2 - s1 == s3 - s2) && (s3 - s2 == s4 - s3) && s4 > s3, nw = 0;
+			for (int k = 0; same && k < s4 - s3; k++) {
+				if (!c->obs[s3 + k].addr) { same = 0; break; }
+				if (c->obs[s1 + k].addr != c->obs[s3 + k].addr || c->obs[s1 + k].val != c->obs[s3 + k].val ||
+				    c->obs[s2 + k].addr != c->obs[s3 + k].addr || c->obs[s2 + k].val != c->obs[s3 + k].val) same = 0;
+			}
+			for (int k = s3; same && k < s4; k++) {
 				int first = 1;
-				if (!c->obs[k].addr) { same = 0; break; }	/* the iteration wrote blindly: progress */
-				for (int j = c->spin[i].obs_start; j < k; j++) if (c->obs[j].addr == c->obs[k].addr) first = 0;
+				for (int j = s3; j < k; j++) if (c->obs[j].addr == c->obs[k].addr) first = 0;
 				if (!first) continue;
 				if (vs_peek(c->obs[k].addr, c->obs[k].n) != c->obs[k].val) same = 0;
 				else c->watch[nw++] = c->obs[k];
 			}
-			if (!same || !nw) { c->nspin = i; c->nobs = c->spin[i].obs_start; break; }	/* not a spin: forget the older iteration */
-			c->ha = c->spin[i].ha; c->hb = c->spin[i].hb; c->nspin = i; c->nobs = c->spin[i].obs_start; c->nwatch = nw;
-			V.st->spin_blocks++;
-			if (V.cur == 0 && V.next_handler < V.scn->nhandlers && V.depth0 < V.scn->max_nesting) {
-				/* thread 0 spins while an interrupt is still to come: it arrives now (forced, no deviation) */
-				if (V.tracing) vs_trace("spins; the next interrupt arrives");
-				vs_run_handler(V.next_handler);
-				c = vs_curctx();
-				break;
+			if (same && nw) {
+				c->ha = c->spin[i1].ha; c->hb = c->spin[i1].hb; c->nspin = i1; c->nobs = s1; c->nwatch = nw;
+				V.st->spin_blocks++;
+				if (V.cur == 0 && V.next_handler < V.scn->nhandlers && V.depth0 < V.scn->max_nesting) {
+					/* thread 0 spins while an interrupt is still to come: it arrives now (forced, no deviation) */
+					if (V.tracing) vs_trace("spins; the next interrupt arrives");
+					vs_run_handler(V.next_handler);
+					c = vs_curctx();
+				} else {
+					V.blocked[V.cur] = 1;
+					if (V.tracing) vs_trace("spins (would repeat itself until one of the %d values it saw changes): blocked", nw);
+					vs_to_sched();
+					c = vs_curctx();
+				}
 			}
-			V.blocked[V.cur] = 1;
-			if (V.tracing) vs_trace("spins (would repeat itself until one of the %d values it saw changes): blocked", nw);
-			vs_to_sched();
-			c = vs_curctx();
-			break;
 		}
-		if (c->nspin < 24) { c->spin[c->nspin].site = site; c->spin[c->nspin].ha = c->ha; c->spin[c->nspin].hb = c->hb; c->spin[c->nspin].obs_start = c->nobs; c->nspin++; }
+		if (c->nspin >= 24) { memmove(&c->spin[0], &c->spin[8], sizeof(c->spin[0]) * 16); c->nspin = 16; }
+		{ c->spin[c->nspin].site = site; c->spin[c->nspin].ha = c->ha; c->spin[c->nspin].hb = c->hb; c->spin[c->nspin].obs_start = c->nobs; c->nspin++; }
 	}
 	/* interrupt injection (thread 0 only) */
 	while (V.cur == 0 && V.next_handler < V.scn->nhandlers && V.depth0 < V.scn->max_nesting) {
